@@ -130,6 +130,74 @@ def part_a(args):
     return out
 
 
+def part_gate(args):
+    '''"every event specification the compliance rules accept": the whole grid
+    of MOMENT field combinations (set / unset / ill-typed) goes through the
+    real tools.compliant.rule_10; every accepted one must be computable by
+    schedule._delay at every instant of a boundary menu'''
+    tier, seed = args
+    import sys
+    import types
+    import dawgie
+    import dawgie.pl.schedule as sched
+    import dawgie.tools.compliant as compliant
+    from . import world, mini
+
+    ctx = common.Ctx('C20', tier, seed, LEVEL)
+    clk = world.VClock(dt.datetime(2024, 1, 1, tzinfo=UTC))
+    clk.install(sched, 'datetime')
+    boots = (None, True)
+    days = (None, dt.date(2024, 2, 29), 'x')
+    doms = (None, 1, 31, 'x')
+    dows = (None, 0, 6, 1.5)
+    times = (None, dt.time(12, 34, 56), 'x')
+    instants = [dt.datetime(y, m, d, h, 0, 1, tzinfo=UTC) for y in (2023, 2024) for m in (1, 2, 12)
+                for d in (1, 15, 28) for h in (0, 13)] + [dt.datetime(2024, 2, 29, 23, 59, 59, tzinfo=UTC),
+                                                           dt.datetime(2024, 12, 31, 23, 59, 59, tzinfo=UTC)]
+
+    def fac(*a, **k):
+        return None
+    fac.__module__ = 'verifpkg.ta'
+    fac.__name__ = 'task'
+    alg = mini.Alg('a')
+    accepted = 0
+    try:
+        for boot, day, dom, dow, tm in itertools.product(boots, days, doms, dows, times):
+            ev = dawgie.EVENT(dawgie.ALG_REF(fac, alg), dawgie.MOMENT(boot, day, dom, dow, tm))
+            mod = types.ModuleType('verif_c20_gate')
+            mod.events = lambda ev=ev: [ev]
+            sys.modules['verif_c20_gate'] = mod
+            ctx.count('gate_specs')
+            try:
+                ok = bool(compliant.rule_10('verif_c20_gate'))
+            except Exception:  # noqa: an exception inside a rule is a rejection
+                ok = False
+            finally:
+                sys.modules.pop('verif_c20_gate', None)
+            if not ok:
+                continue
+            accepted += 1
+            spec = {'boot': boot, 'day': str(day), 'dom': dom, 'dow': dow, 'time': str(tm)}
+            for now in instants:
+                clk.set(now)
+                del sched.booted[:]
+                ctx.count('delay_calls')
+                try:
+                    sched._delay(ev)
+                except Exception as e:  # noqa
+                    unset = 'no-time' if tm is None else 'other'
+                    ctx.violation(f'C20/accepted-spec-not-computable/{unset}/{type(e).__name__}',
+                                  f'rule_10 accepts MOMENT{(boot, day, dom, dow, tm)} but _delay at {now} raised {e!r}',
+                                  {'spec': spec, 'now': str(now)})
+                    break
+    finally:
+        clk.uninstall()
+        del sched.booted[:]
+    out = ctx.export()
+    out['accepted'] = accepted
+    return out
+
+
 # ------------------------------------------------------------------ (b)
 
 A = aegen.alg
@@ -404,6 +472,10 @@ def run(ctx):
     for r in common.pmap(part_a, [(ctx.tier, ctx.seed, s, nsh) for s in range(nsh)]):
         ctx.merge(r)
         distinct = max(distinct, r['distinct'])
+    accepted = 0
+    for r in common.pmap(part_gate, [(ctx.tier, ctx.seed)]):
+        ctx.merge(r)
+        accepted = r['accepted']
     jobs = []
     periods = 3
     for name, desc in engines().items():
@@ -435,7 +507,10 @@ def run(ctx):
     cov = {
         'evaluations': c.get('delay_calls', 0) + c.get('recurrence_transitions', 0),
         'distinct_nontrivial': distinct + states,
-        'rule': '(a) 114 specifications x every hour of 2023-2028 (+-1 s around midnights, plus date specs); '
+        'gate_specs_accepted': accepted,
+        'rule': '(gate) all 288 MOMENT field combinations (unset / set / ill-typed) through the real rule_10, every '
+                'accepted one through _delay at 38 boundary instants; '
+                '(a) 114 specifications x every hour of 2023-2028 (+-1 s around midnights, plus date specs); '
                 '(b) 7 engines x 5 boot instants, horizon 3 periods, all interleavings of timer / dispatch / reply / '
                 'reload; distinct_nontrivial = distinct (spec, whole days ahead) + recurrence states',
         'recurrence_states': states,
